@@ -25,6 +25,7 @@ import (
 	"os"
 	"os/exec"
 	"path/filepath"
+	"regexp"
 	"runtime"
 	"strings"
 	"sync"
@@ -51,7 +52,12 @@ type c25Job struct {
 	Sketch bool   `json:"sketch"`
 	Theme  int64  `json:"theme"`
 	Class  string `json:"class"`
+	// Strip: digest of the SVG without <tspan> tags, i.e. blind to the token classes chroma assigns (known
+	// finding C25-chroma-match-timeout) but not to text, geometry, fonts or anything else
+	Strip bool `json:"strip,omitempty"`
 }
+
+var c25Tspan = regexp.MustCompile(`</?tspan[^>]*>`)
 
 // c25Render: what `d2 in.d2 out.svg` does for one board, as a digest of the SVG bytes ("ERR:…" on error)
 func c25Render(j c25Job) string { return c25RenderRec(j, nil) }
@@ -89,6 +95,9 @@ func c25RenderRec(j c25Job, rec func(engine string, g *d2graph.Graph)) (res stri
 	if err != nil {
 		return "ERR:" + err.Error()
 	}
+	if j.Strip {
+		svg = c25Tspan.ReplaceAll(svg, nil)
+	}
 	h := sha256.Sum256(svg)
 	if dir := os.Getenv("D2H_C25_DUMP"); dir != "" {
 		// debugging aid: keep one copy of every distinct SVG so that differing runs can be diffed
@@ -111,21 +120,38 @@ func c25ChildMode() {
 		os.Exit(3)
 	}
 	out := make([]string, len(jobs))
-	for i, j := range jobs {
-		out[i] = c25Render(j)
+	if os.Getenv("D2H_C25_CHILD") == "concurrent" {
+		var wg sync.WaitGroup
+		start := make(chan struct{})
+		for i := range jobs {
+			wg.Add(1)
+			go func(i int) {
+				defer wg.Done()
+				<-start
+				out[i] = c25Render(jobs[i])
+			}(i)
+		}
+		close(start)
+		wg.Wait()
+	} else {
+		for i, j := range jobs {
+			out[i] = c25Render(j)
+		}
 	}
 	json.NewEncoder(os.Stdout).Encode(out)
 	os.Exit(0)
 }
 
-func c25Child(jobs []c25Job) ([]string, error) {
+func c25Child(jobs []c25Job) ([]string, error) { return c25ChildMode2(jobs, "1") }
+
+func c25ChildMode2(jobs []c25Job, mode string) ([]string, error) {
 	exe, err := os.Executable()
 	if err != nil {
 		return nil, err
 	}
 	in, _ := json.Marshal(jobs)
 	cmd := exec.Command(exe)
-	cmd.Env = append(os.Environ(), "D2H_C25_CHILD=1")
+	cmd.Env = append(os.Environ(), "D2H_C25_CHILD="+mode)
 	cmd.Stdin = bytes.NewReader(in)
 	var stderr bytes.Buffer
 	cmd.Stderr = &stderr
@@ -235,6 +261,7 @@ func c25Jobs(r *Rng, tier string, n int) []c25Job {
 func c25Gen(r *Rng, tier string, n int) []Case {
 	var out []Case
 	out = append(out, c25SortCases(r, tier)...)
+	out = append(out, c25PairCases(tier)...)
 	jobs := c25Jobs(r, tier, n)
 	J := len(jobs)
 
